@@ -423,7 +423,7 @@ func (BatchStatusMonitor) OnWrite(x *Ctx, w *Write) {
 			}
 			// a Finalize attempt that found the workload already restored by an earlier attempt is a retry
 			// (only the blue-green finaliser skips its patch on a retry; the canary-style one patches every time)
-			if sc.Style == "bluegreen" && x.Pre != nil && x.Pre.Workload != nil && !controlledOf(x.Pre.Workload) {
+			if sc.Style == "bluegreen" && sc.Kind == "Deployment" && x.Pre != nil && x.Pre.Workload != nil && !controlledOf(x.Pre.Workload) {
 				class += "/on-finalize-retry"
 			}
 			x.Violate("C11/completed/wait-resume-not-waited/"+sc.Kind+"-"+sc.Style+"/"+class, fmt.Sprintf("BatchRelease (policy WaitResume) reported Completed with %d/%d pods updated and %d ready", v.Updated, v.Replicas, v.UpdatedReady))
